@@ -374,6 +374,28 @@ def r_grade_solvers(rep, f):
                     else:
                         why = g.issues[-1][1] if g.issues else grade.fmt(gd)
                         rep.violation("R-GRADE-SCALE", key, "the tolerance scale `%s` is not homogeneous of degree 1 in the state (atol + rtol*|y|): %s" % (sig[:120], why), hk.main_loop.get("sp"))
+        # an absolute floor / ceiling on a tolerance scale (scale.max(EPS), scale.min(c)) breaks the homogeneity the scale has:
+        # scaling state and atol by 2^-k moves the scale below the floor. Replacing an exact zero is fine (phi, not max).
+        from poly import reaches as _reaches
+        floored = None
+        for ev in sx.trace:
+            v_ = ev.get("value") if ev["kind"] in ("store", "assign") else None
+            a_ = v_.single_atom() if isinstance(v_, Poly) else None
+            d_ = DEFS.get(a_) if a_ else None
+            if not d_ or d_[0] not in ("max", "min", "clamp"):
+                continue
+            args_ = [x for x in d_[1] if isinstance(x, Poly)]
+            tol_args = [x for x in args_ if any(at.startswith("atol") for at in x.atoms()) and any(at.startswith("rtol") for at in x.atoms())]
+            consts = [x for x in args_ if (x.is_const() and x.const_value() != 0) or (x.single_atom() or "").startswith("const:")]
+            if tol_args and consts and floored is None:
+                floored = (ev, d_[0], tol_args[0], consts[0])
+        if floored:
+            ev, op_, ta_, c_ = floored
+            rep.violation("R-GRADE-SCALE", "R-GRADE-SCALE:%s:absolute-floor" % fn, "the tolerance scale `%s` is combined by %s with the absolute constant %r: below that constant the scale no longer follows "
+                          "atol + rtol*|y|, so rescaling state and atol by a power of two changes the step sequence" % (repr(ta_)[:80], op_, c_),
+                          ev["node"].get("sp") if isinstance(ev.get("node"), dict) else hk.main_loop.get("sp"))
+        else:
+            rep.ok("R-GRADE-SCALE", "R-GRADE-SCALE:%s:absolute-floor" % fn, "no tolerance scale is floored or capped by an absolute constant", nontrivial=False)
         if not seen:
             rep.inconc("R-GRADE-SCALE", "R-GRADE-SCALE:%s" % fn, "no tolerance scale found")
         # (b) accept operand
